@@ -94,6 +94,10 @@ Start(bf, u, c) ==
          \* the same binding used twice in a sequence (sibling invocations)
       [] c = 5 -> Seq2(Bd(bf, u, w, Str(<<semi>>)), Bd(bf, u, w, Eps))
          \* a rule whose parameter is shadowed by an inner let, then ANOTHER rule with a parameter of the same name
+         \* a let variable that has the name of a rule of the grammar (Id), passed on as an argument
+      [] c = 7 -> Let("Id", w, Left(Call("Echo", <<Pos(Ref("Id"))>>), Eps))
+         \* the binding expression of an inner let of the same name mentions the outer binding
+      [] c = 8 -> Let("x", w, Let("x", Py(<<"lst", << <<"var", "x">>, <<"var", "x">> >> >>), Left(Use(u, "x"), Eps)))
       [] c = 6 -> Let("q", w, Seq2(Left(Call("ShA", <<Pos(Ref("q"))>>), Str(<<semi>>)), Call("ShB", <<Pos(Ref("q"))>>)))
 
 RecRule(bf, u) ==
@@ -132,7 +136,9 @@ CountTexts == TextSeqUpTo(<<48, 49, two, b, semi>>, IF Tier = "quick" THEN 4 ELS
 VARIABLES bf, u, c, named, done
 vars == <<bf, u, c, named, done>>
 
-Init == /\ bf \in Binds /\ u \in Uses /\ c \in 0..6
+Init == /\ bf \in Binds /\ u \in Uses /\ c \in 0..8
+        /\ (c = 7 => (bf = "let" /\ u = "value"))
+        /\ (c = 8 => (bf = "let" /\ u \in {"value", "list", "apply"}))
         /\ (c \in {3, 6} => bf = "let")     \* the recursive rule and the shadowing rules use the let form
         /\ named \in {FALSE, TRUE}
         /\ (named => c \in {0, 6})          \* the named calling convention for the plain and the shadowing contexts
